@@ -72,6 +72,35 @@ def build_cases(rng, tier):
             c['combo'] = (tbl, bits, mode, array, be)
             c['set'] = i
             cases.append(c)
+    # states stored as differences against a template: two prefixes followed by wide classes that differ in a few members,
+    # among them the highest one (a jam where the template has a transition), under the compressed table options
+    for i in range(6 if tier == "quick" else 40):
+        r = rng.fork("tmpl%d" % i)
+        wide = list(range(65, 91)) + list(range(97, 123))
+        pre = r.shuffle([112, 113, 114, 115])[:r.rng(2, 3)]
+        rules = []
+        alts = None
+        for j, pch in enumerate(pre):
+            members = list(wide)
+            if j > 0:
+                drop = set(r.shuffle(members)[:r.rng(1, 3)]) | {max(members)}
+                if r.chance(50):
+                    drop.add(min(members))
+                members = [c for c in members if c not in drop]
+            node = ('cat', ('c', pch), ('cls', ('set', False, [('ch', c) for c in members])))
+            alts = node if alts is None else ('alt', alts, node)
+        rules.append({'head': ('cat', alts, ('plus', ('cls', ('set', False, [('rg', 48, 57)])))), 'bol': False, 'scs': None, 'trail': None})
+        rules.append({'head': ('str', [pre[-1], 65, 59]), 'bol': False, 'scs': None, 'trail': None})
+        rules.append({'head': ('plus', ('cls', ('set', False, [('rg', 48, 57)]))), 'bol': False, 'scs': None, 'trail': None})
+        prog = {'csize': 256, 'caseins': False, 'scs': [], 'rules': rules}
+        inputs = rulesets.gen_inputs(prog, r.fork("inputs"), count=3, maxlen=60)
+        inputs.append([pre[-1], 122, 49, 50, 32, pre[-1], 65, 59, pre[0], 122, 55, 10, pre[-1], 90, 57])
+        for j, tbl in enumerate(["-C", "-Ce", "-Cm", "-Cem"]):
+            c = engine.make_case("t%d_%d" % (i, j), r.fork("case%d" % j), prog=prog, flex_opts=[tbl, "-8"], backend=r.pick(['nr', 'r', 'c99']))
+            c['inputs'] = inputs
+            c['combo'] = (tbl, "-8", None, False, c['backend'])
+            c['set'] = 3000 + i
+            cases.append(c)
     # neither -7 nor -8: the manual's default is an 8-bit scanner, except 7 bit for -Cf / -CF without equivalence classes
     for i, tbl in enumerate(TABLES):
         r = rng.fork("dflt%d" % i)
